@@ -831,7 +831,7 @@ func writeTypeConversion(w *formatting.IndentedWriter, t dsl.Type, next func()) 
 				case dsl.Uint8:
 					return "uint8(", ")"
 				case dsl.Int16:
-					return "int32(", ")"
+					return "int16(", ")"
 				case dsl.Uint16:
 					return "uint16(", ")"
 				case dsl.Int32:
